@@ -5,6 +5,7 @@ pub mod helpwrap;
 pub mod path;
 pub mod process;
 pub mod regex_replacement;
+#[allow(dead_code)] // (no caller at present)
 pub mod round_char_boundary;
 pub mod syntect;
 pub mod tabs;
